@@ -277,11 +277,12 @@ def _exec_exh(args):
 
     rng = random.Random(seed)
     sig = ["a", "b"]
-    conds = [M.present(M.cond_from_index(i, 4), sig, rng) for i in row["b"]]
+    plain = "dnf" if seed % 2 else None  # every second base in plain DNF: no noise atoms that would hide structure-dependent defects
+    conds = [M.present(M.cond_from_index(i, 4), sig, rng, plain) for i in row["b"]]
     qs, seen, used = [], set(), []
     for qi in qnums:
         for _ in range(6):
-            B, A = M.present(M.cond_from_index(qi, 4), sig, rng)
+            B, A = M.present(M.cond_from_index(qi, 4), sig, rng, plain if _ == 0 else None)
             t = M.render_cond(B, A)
             if t not in seen:
                 seen.add(t)
